@@ -106,14 +106,17 @@ def _make_sim_parallel():
         sim_terms = None      # description of the simulated terminals
         report = None         # file the child writes what the bus saw
         ops = None            # shared counter of frames seen by the bus
+        silent_after = None   # cyclic frames answered before the bus falls
+        #                       silent for cyclic frames (cable pulled)
         _next = 0x01000000
 
         def __getstate__(self):
-            return (self.addr[0], self.sim_terms, self.report, self.ops)
+            return (self.addr[0], self.sim_terms, self.report, self.ops,
+                    self.silent_after)
 
         def __setstate__(self, st):
             self.__init__(st[0])
-            self.sim_terms, self.report, self.ops = st[1:]
+            self.sim_terms, self.report, self.ops, self.silent_after = st[1:]
 
         def get_mbx_lock(self, no):
             return MailboxLock()
@@ -130,16 +133,30 @@ def _make_sim_parallel():
             from vf import bus, simgroup
             sims = simgroup.make_sims(self.sim_terms)
             b = bus.Bus(sims)
-            bus.attach(self, asyncio.get_event_loop(), b)
-            orig = self.datagram_received
             ops = self.ops
+            silent_after = self.silent_after
+            ncyc = [0]
 
-            def received(data, addr):
+            def policy(nf, data):
+                from vf import frames
+                resp = b.process(data)
                 if ops is not None:
                     with ops.get_lock():
-                        ops.value += 1
-                return orig(data, addr)
-            self.datagram_received = received
+                        ops.value += 1      # frames the bus has seen
+                try:
+                    dgs = frames.parse(data)[2]
+                except Exception:
+                    dgs = []
+                cyclic = any(d.cmd in (10, 11, 12) or
+                             (d.cmd in (4, 5) and d.addr[1] in (0x1000,
+                                                                0x1100))
+                             for d in dgs[1:])
+                if cyclic:
+                    ncyc[0] += 1
+                    if silent_after is not None and ncyc[0] > silent_after:
+                        return []
+                return [(0.0001, resp)]
+            bus.attach(self, asyncio.get_event_loop(), b, policy)
             try:
                 yield
             finally:
